@@ -1,4 +1,5 @@
 import Norad.Lemmas.C12
+import Norad.Lemmas.C02
 import Norad.Props.C11
 /-!
 # C12 — glif documents breaking the structure rules are rejected, legal ones accepted
@@ -600,9 +601,33 @@ theorem attr_order_irrelevant (s : PS) {l₁ l₂ : List Attr} (hp : l₁.Perm l
 
 -- OPEN (same proof pattern, not carried out): attribute-order independence for `glyph`, `advance`, `unicode`,
 --   `image`, `component` and the `contour` start tag.
--- OPEN: legal_accepted : LegalDoc d → ∃ g, parseGlif rd (Spec.flatten d) = .ok g  (for self-closing content-free
---   elements, non-self-closed `glyph`, no `<note/>`).  The correspondence run evaluates exactly this statement on
---   every generated document (rule `rejected-legal`); the kernel-checked part is the set of per-rule theorems
---   above and the `decide` instances below.
+-- OPEN: legal_accepted for the whole grammar `Spec.flatten d` (any element order, comments anywhere, both versions).
+--   Kernel-checked instead (second phase, `Lemmas/C02.lean`, listed in the audit): acceptance element family by element
+--   family, each for ANY parser state at the right level (= any position of any document) and any spelling `shw` of the
+--   numbers that Rust's parser reads back: `step_advance`, `reach_unicodes`, `step_image`, `step_anchor`/`reach_anchors`,
+--   `step_guideline`/`reach_guidelines`, `step_component`/`reach_components`, `step_point`/`reach_points`,
+--   `reach_contour`/`reach_contours`, `reach_outline`, `reach_lib`, `reach_note`; and their composition for the
+--   canonical element order, `legal_accepted_canonical` below.  The correspondence run evaluates the full statement on
+--   every generated document (rule `rejected-legal`).
+
+/-! ### legal documents are accepted -/
+
+section
+variable {f : Fmt} {rd : Str → Option Nat} {nc : Color → Color} {ok : Nat → Prop}
+
+/-- **legal_accepted** (canonical element order): for every glyph description that obeys the rules (`ValidGlyph`:
+    valid names, identifiers valid and unique across the five kinds, every contour `C11.accepts`-legal and non-empty,
+    angles in range, image name a single component, code points scalar values) the document rendered from it — content-free
+    elements self-closing, `glyph`/`note` not self-closed, numbers and colours in ANY spelling `f` that reads back
+    (`Codec`), any note, any lib — is accepted, and the returned glyph is the one described (`preG`). -/
+theorem legal_accepted_canonical (hc : Codec f rd nc ok) {g : Glyph} (hv : ValidGlyph ok g) (hobj : NoObjectLibs g)
+    (hkey : dictGet objectLibsKey (reindentDict f.indent g.lib) = none) :
+    parseGlif rd (encodeGlif f g) = .ok (preG f nc g) := by
+  rw [parse_encode hc hv]
+  have hw : writtenLib g = g.lib := by simp [writtenLib, dump_empty_of_no_libs hobj]
+  have : dictGet objectLibsKey (preG f nc g).lib = none := by simpa [preG, hw] using hkey
+  simp [loadObjectLibs, this]
+
+end
 
 end Glif
